@@ -232,6 +232,7 @@ class Ctx(object):
         self.violations = []
         self.stats = {}
         self.detail = []
+        self.fd = None  # running digest of floating-point detail (determinism self-test only)
 
     def count(self, key, n=1):
         self.stats[key] = self.stats.get(key, 0) + n
@@ -280,6 +281,8 @@ def _observe_side(ctx, step, side, obj, spec, t_obj, probes, base_measures):
     ctx.count("queries", len(rx))
     outs = []
     for (qn, pi, x), (_, _, f) in zip(rx, rf):
+        if ctx.fd is not None:
+            ctx.fd.update(detail(x).encode())
         ok = same(x, f, angle=qn.startswith("angle"))
         outs.append(disc(x) + ("" if ok else "#" + disc(f)))
         if pi is not None:
@@ -345,6 +348,10 @@ def execute(history, opts=None):
     """run one history; pure function of (history, library code, hash seed)"""
     G = lib()
     ctx = Ctx()
+    if opts and opts.get("float_digest"):
+        import hashlib
+
+        ctx.fd = hashlib.sha256()
     spec = history["subject"]
     ops = history["ops"]
     Xo = call(build, spec)
@@ -481,6 +488,7 @@ def _result(ctx, history):
         "violations": ctx.violations,
         "stats": ctx.stats,
         "detail": ctx.detail,
+        "float_digest": ctx.fd.hexdigest() if ctx.fd is not None else None,
         "nontrivial": nontrivial,
         "steps": len(ops),
         "shape": ">".join(k[0] + k[-1] for k in kinds),
